@@ -279,6 +279,21 @@ pub fn suite_pkgrules(ctx: &Ctx, thorough: bool) {
             other => ctx.violate("C08.maven", "maven is refused unless a namespace is present (builder)", json!({"name": name}), format!("{:?}", other.map(|r| r.map(|p| Obs::of(&p)))), "Err(MissingRequiredField(Namespace))".into()),
         }
     });
+    // a well-formed type other than the seven known ones -- aliases people use, near misses, other ecosystems -- is refused by the
+    // typed PURL (UnsupportedType) whenever the type-agnostic PURL accepts the string
+    for ty in ["go", "Go", "GO", "rubygems", "RubyGems", "crates", "crate", "pip", "node", "nodejs", "mvn", "dotnet", "py", "rust", "golang.org", "go-lang",
+               "deb", "rpm", "generic", "github", "docker", "t", "npmx", "xnpm", "np", "cargo2", "pypi3", "nuget.org", "maven2", "gems"] {
+        for rest in ["n", "ns/n@1", "a/b/n?k=v#s"] {
+            ctx.eval();
+            let s = format!("pkg:{ty}/{rest}");
+            if let Ok(Ok(_)) = parse_string(&s) {
+                match parse_typed(&s) {
+                    Ok(Err(k)) if format!("{k:?}").contains("UnsupportedType") => {},
+                    other => ctx.violate("C08.typed", "a well-formed type other than the seven known ones is refused by the typed PURL", json!(s), format!("{:?}", other.map(|r| r.map(|p| Obs::of(&p)))), "Err(UnsupportedType)".into()),
+                }
+            }
+        }
+    }
     for ns in ["/", "//", "///"] {
         ctx.eval();
         match guarded(|| Purl::builder(PackageType::Maven, "n").with_namespace(ns).build()) {
@@ -382,7 +397,7 @@ pub fn suite_names(ctx: &Ctx, thorough: bool) {
         let n = t.name();
         ctx.eval();
         let s: &'static str = t.into();
-        let agree = n == t.as_ref() && n == s && n == t.to_string() && purl::PurlShape::package_type(&t) == n
+        let agree = n == t.as_ref() && n == s && n == t.to_string() && format!("{t:#}") == n && format!("{t:.20}") == n && purl::PurlShape::package_type(&t) == n
             && serde_json::to_string(&t).ok() == Some(format!("\"{n}\""))
             && n.bytes().all(|b| b.is_ascii_lowercase()) && refimpl::KNOWN_TYPES.contains(&n);
         if !agree {
@@ -414,6 +429,8 @@ pub fn suite_names(ctx: &Ctx, thorough: bool) {
         }
         cands.push(format!(" {n}")); cands.push(format!("{n} ")); cands.push(format!("{n}\0")); cands.push(format!("pkg:{n}"));
     }
+    // names people use for the same ecosystems
+    for alias in ["go", "Go", "GO", "rubygems", "RubyGems", "crates", "crate", "pip", "node", "nodejs", "mvn", "dotnet", "py", "rust", "golang.org"] { cands.push(alias.to_string()); }
     for other in ["alpm", "apk", "bitbucket", "cocoapods", "composer", "conan", "conda", "cran", "deb", "docker", "generic", "github", "hackage", "hex", "huggingface", "mlflow", "oci", "pub", "qpkg", "rpm", "swid", "swift", "go", "rubygems", "crates", "pip", "python", "mvn", "node"] {
         cands.push(other.to_string());
     }
@@ -573,6 +590,23 @@ pub fn suite_serde(ctx: &Ctx, thorough: bool) {
     // comes back from the data format is the value that went in
     for s in ["pkg:nuget/ÆA@1.0", "pkg:nuget/AÆ", "pkg:NuGet/SociÉté.Core", "pkg:pypi/A_É", "pkg:pypi/É__a.-b", "pkg:pypi/ΟΔΟΣ", "pkg:nuget/ΟΔΟΣ.Σ", "pkg:nuget/ǅx",
               "pkg:npm/%40Scope/Name@1?Arch=X", "pkg:maven/G/A@1?checksum=SHA1:AB,md5:00", "pkg:t/n?checksum=ΑΣ:00,b:11"] { serde_one(ctx, s); }
+    {
+        let base = GenericPurl::<String>::from_str("pkg:t/ns/n@1?a=1&b=2&c=3&d=4&e=5#s").unwrap();
+        let mut vals: Vec<GenericPurl<String>> = vec![];
+        for drop in ["a", "c", "e"] {
+            let mut b = base.clone().into_builder(); b.parts.qualifiers.retain_mut(|k, _| k != drop); if let Ok(p) = b.build() { vals.push(p); }
+            let mut b = base.clone().into_builder(); b.parts.qualifiers.retain(|k, _| k != drop); if let Ok(p) = b.build() { vals.push(p); }
+            let mut b = base.clone().into_builder(); if let Ok(purl::qualifiers::Entry::Occupied(o)) = b.parts.qualifiers.entry(drop) { o.remove(); } if let Ok(p) = b.build() { vals.push(p); }
+            let mut b = base.clone().into_builder(); b.parts.qualifiers.remove(drop); b.parts.qualifiers.insert("Z9", "z").unwrap(); if let Ok(p) = b.build() { vals.push(p); }
+        }
+        for a in &vals {
+            ctx.eval();
+            let back: Option<GenericPurl<String>> = serde_json::to_string(a).ok().and_then(|t| serde_json::from_str(&t).ok());
+            if back.as_ref() != Some(a) {
+                ctx.violate("C16.roundtrip", "survives a JSON round trip unchanged", json!({"built": a.to_string()}), format!("{:?}", back.map(|p| Obs::of(&p))), format!("{:?}", Obs::of(a)));
+            }
+        }
+    }
     for v in [json!(null), json!(1), json!(1.5), json!(true), json!([]), json!(["pkg:t/n"]), json!({"purl": "pkg:t/n"}), json!({})] {
         ctx.eval();
         if serde_json::from_value::<GenericPurl<String>>(v.clone()).is_ok() || serde_json::from_value::<Purl>(v.clone()).is_ok() {
